@@ -11,14 +11,14 @@ pub fn c01_run(run: &Run) {
 }
 pub fn c01_replay(run: &Run, case: &Value) -> Result<Vec<Violation>, String> {
     crate::ts::install_panic_hook();
-    replay_case(run, &c01(), case)
+    crate::factcheck::replay_fact(run, &c01(), case)
 }
 pub fn c02_run(run: &Run) {
     run_check(run, &c02(), "programs of unit enums and adjacently tagged enums with 1-6 UpperCamelCase variants (unit / newtype / struct mixes, incl. V2, A, Http2Frame, Default, Case), rename_all over the 8 rules or none, per-variant serde(rename), tag/content keys from a pool incl. target keywords, generics, recursion; 6 languages. Oracle: wire name = rename else serde_derive apply_to_variant else identifier at EVERY site where the output spells it (TS enum initialiser / union member; Kotlin @SerialName and constructor argument; Swift CodingKeys or raw value; Go const; Scala serialName; Python <Enum>Types member); tag and content keys equal the attribute strings at every site (TS members, Swift ContainerCodingKeys + decode discriminator + decode/encode arms, Go struct tag + Unmarshal/Marshal anonymous struct tags, Kotlin/Scala content parameter, Python variant classes); exactly one case, one decode arm, one encode arm per variant, all naming the same case. Non-trivial = a rename/rule changes a name, or non-default keys, or >= 2 payload kinds.", &[OBS_ASSUMPTION, INPROC_ASSUMPTION, "Kotlin and Scala outputs carry no tag key (statement): only wire names and the content key are compared there"], 3000, 100_000);
 }
 pub fn c02_replay(run: &Run, case: &Value) -> Result<Vec<Violation>, String> {
     crate::ts::install_panic_hook();
-    replay_case(run, &c02(), case)
+    crate::factcheck::replay_fact(run, &c02(), case)
 }
 pub fn c03_run(run: &Run) {
     run_check(run, &c03(), "files of 2-8 items (structs, newtypes, unit structs, unit enums, tagged enums, aliases, consts), each independently annotated or not (un-annotated decoys are never referenced), at module depth 0-3, annotation spelled #[typeshare] / #[typeshare(..)] / #[typeshare::typeshare]; serde(skip) / typeshare(skip) on any subset of fields, variants and struct-variant fields, merged or split, any order; decoy attributes that are not skip (skip_serializing_if, skip_deserializing, skip_serializing, alias, with). Oracle: definitions found = annotated items (+ helper structs of struct variants), nothing named after a decoy, nothing invented; each definition lists exactly the non-skipped members in source order. Non-trivial = a skip marker, decoy attribute, un-annotated item or module depth >= 1.", &[OBS_ASSUMPTION, INPROC_ASSUMPTION, "definitions are matched to items tolerantly (original or serde-renamed name, prefix, case/underscore transformations): which of them a back end uses is C09's subject"], 3000, 60_000);
@@ -29,21 +29,21 @@ pub fn c03_replay(run: &Run, case: &Value) -> Result<Vec<Violation>, String> {
     if case.get("ws").is_some() {
         return crate::c03cli::replay(run, case);
     }
-    replay_case(run, &c03(), case)
+    crate::factcheck::replay_fact(run, &c03(), case)
 }
 pub fn c04_run(run: &Run) {
     run_check(run, &c04(), "fields whose type is T, Option<T>, Option<Option<T>>, Box<Option<T>>, Option<Box<T>>, Arc<Option<Option<T>>>, &Option<T> (T over primitives, containers to depth 3, user types, generic parameters) x default in {absent, bare serde(default) alone or merged, path form default = \"f\" (decoy)} x decoy attributes, in structs, struct variants, newtype-variant payloads and alias targets; Go with no_pointer_slice on/off. Oracle: optional <=> Option at the top after stripping references/transparent pointers, or bare field-level default; every part of the language's idiom present (TS ?; Kotlin ? and = null; Swift ? on the property and the init parameter; Scala Option[..] and = None; Go * and omitempty (documented exception: Option<Vec> under no_pointer_slice); Python Optional and default=None) and none of them otherwise; TS `| null` iff double option; the type under the marker keeps its shape. Non-trivial = default present, Option under a wrapper, double option, or a non-struct position.", &[OBS_ASSUMPTION, INPROC_ASSUMPTION], 4000, 100_000);
 }
 pub fn c04_replay(run: &Run, case: &Value) -> Result<Vec<Violation>, String> {
     crate::ts::install_panic_hook();
-    replay_case(run, &c04(), case)
+    crate::factcheck::replay_fact(run, &c04(), case)
 }
 pub fn c05_run(run: &Run) {
     run_check(run, &c05(), "type expressions to depth 5 over {bool, char, String, &str, i8..i32, u8..u32, I54, U53, f32, f64, (), user types (generic and not), generic parameters} closed under Vec, [T;N], &[T], Option, HashMap, Box/Arc/Rc/Cow/Cell/RefCell/Mutex/RwLock, references and path qualification, used as field, struct-variant field, newtype payload, alias / newtype-struct target and const type; 6 languages; prefix settings; type_mappings tables mapping 0-2 user types and \"Vec<u8>\" (TS/Go/Python). Oracle: structural comparison of the observed type tree with the expected one (sequence, fixed sequence, map, option idiom, generic arguments in order, parameters unprefixed, user types under their prefixed original-or-renamed name, mapped types replaced by exactly the configured name); primitive leaves by a per-language table of (JSON category, value range) that is a statement about the target languages: same category, range of the target contains the range of the Rust type. Non-trivial = depth >= 3, a wrapper/reference/qualified path, a mapping, or a container as generic argument.", &[OBS_ASSUMPTION, INPROC_ASSUMPTION, "TS renders Option transparently below the marker level (documented in the code); nothing is demanded there", "Go `int`/`uint` are only guaranteed 32 bits (language spec)"], 5000, 150_000);
 }
 pub fn c05_replay(run: &Run, case: &Value) -> Result<Vec<Violation>, String> {
     crate::ts::install_panic_hook();
-    replay_case(run, &c05(), case)
+    crate::factcheck::replay_fact(run, &c05(), case)
 }
 
 pub fn c09_run(run: &Run) {
@@ -51,7 +51,7 @@ pub fn c09_run(run: &Run) {
 }
 pub fn c09_replay(run: &Run, case: &Value) -> Result<Vec<Violation>, String> {
     crate::ts::install_panic_hook();
-    replay_case(run, &crate::c09_12::c09(), case)
+    crate::factcheck::replay_fact(run, &crate::c09_12::c09(), case)
 }
 pub fn c11_run(run: &Run) {
     let rule = "item sets of 2-10 with a random reference graph: an acyclic family (items only refer to items earlier in a hidden order; source order shuffled independently; names random so alphabetical order is independent of the graph) and an unrestricted family (self loops, cycles); every edge placed in a struct field, newtype payload, struct-variant field, alias / newtype target, through Vec / array / slice / Option / HashMap key or value / generic argument / nested combinations; a sub-family with serde-renamed targets; languages TS, Kotlin, Swift, Go, Python. Oracle: (1) every item is defined exactly once (all graphs); (2) acyclic graphs: every definition belonging to A (its helper structs and variant classes included) that mentions B's name comes after B's definition; (3) Python, acyclic: the module executes against the stub pydantic without NameError on a user type. Non-trivial = >= 3 edges, a cycle, or an edge through a container.";
@@ -60,7 +60,7 @@ pub fn c11_run(run: &Run) {
 }
 pub fn c11_replay(run: &Run, case: &Value) -> Result<Vec<Violation>, String> {
     crate::ts::install_panic_hook();
-    replay_case(run, &crate::c09_12::c11_dag(), case)
+    crate::factcheck::replay_fact(run, &crate::c09_12::c11_dag(), case)
 }
 pub fn c12_run(run: &Run) {
     run_check(run, &crate::c09_12::c12(), "programs in which the trigger types - (), unsigned integers, Option, Vec, HashMap, generic parameters, Vec<u8> mapped to bytes - occur at depth 0-4 and in every position (field, struct-variant field, newtype payload, alias / newtype target, generic argument, const type), alone and combined; 6 languages. Oracle (one direction, as stated): every use of a helper name (Swift CodableVoid; Scala UByte/UShort/UInt/ULong; Python names from typing / pydantic / enum / datetime, TypeVars, custom (de)serialiser functions - found by an AST walk of annotations, bases and values, plus NameError at import; Go package qualifiers) is matched by a definition or import in the same output. Non-trivial = a trigger at depth >= 2 or >= 2 triggers.", &[OBS_ASSUMPTION, INPROC_ASSUMPTION, "unused imports are not flagged; generated TypeScript never uses the names of its Reviver/Replacer footer, so no obligation arises there"], 3000, 80_000);
@@ -71,5 +71,5 @@ pub fn c12_replay(run: &Run, case: &Value) -> Result<Vec<Violation>, String> {
     if case.get("ws").is_some() {
         return crate::c12cli::replay(run, case);
     }
-    replay_case(run, &crate::c09_12::c12(), case)
+    crate::factcheck::replay_fact(run, &crate::c09_12::c12(), case)
 }
